@@ -1110,8 +1110,17 @@ func TestVerifC19Corruption(t *testing.T) {
 		if viaSave && !bytes.Equal(orig, verifC19Canon(st)) {
 			fail("saved file is not the canonical encoding of the state")
 		}
-		if got, err := New(path).Load(context.Background()); err != nil || !bytes.Equal(verifC19Canon(got), verifC19Canon(st)) {
+		// A long-lived Store (the sync client loads through one instance on every
+		// tick) has already loaded the intact file when the corruption happens.
+		longLived := New(path)
+		if got, err := longLived.Load(context.Background()); err != nil || !bytes.Equal(verifC19Canon(got), verifC19Canon(st)) {
 			fail("Load of the untouched file: err=%v", err)
+		}
+		sameStore := rapid.Bool().Draw(rt, "loadThroughTheSameStore")
+		keepMtime := rapid.Bool().Draw(rt, "corruptionKeepsModTime")
+		before, statErr := os.Stat(path)
+		if statErr != nil {
+			fail("stat: %v", statErr)
 		}
 		data := append([]byte(nil), orig...)
 		var desc []string
@@ -1190,17 +1199,36 @@ func TestVerifC19Corruption(t *testing.T) {
 		if err := os.WriteFile(path, data, 0o600); err != nil {
 			fail("write corrupted file: %v", err)
 		}
-		got, err := New(path).Load(context.Background())
+		if keepMtime {
+			// in-place damage (bit rot, a stray write) does not announce itself
+			// through the modification time
+			if err := os.Chtimes(path, before.ModTime(), before.ModTime()); err != nil {
+				fail("chtimes: %v", err)
+			}
+		}
+		loader := New(path)
+		if sameStore {
+			loader = longLived
+		}
+		got, err := loader.Load(context.Background())
 		wellFormed := json.Valid(data)
+		// Load is "read the file, validate, decode": whatever the validator refuses
+		// for the bytes that are in the file now, Load must refuse too — also when
+		// this Store has loaded an earlier content of the file before.
+		if _, refErr := state.Decode(data); refErr != nil && err == nil {
+			fail("corrupted file (%v; same store=%v, modification time kept=%v, length %d->%d) was loaded without error although its current content is refused by state.Decode (%v)", desc, sameStore, keepMtime, len(orig), len(data), refErr)
+		}
 		if err == nil {
 			verifC19CheckLoaded(fail, got)
 			if !bytes.Equal(verifC19Canon(got), verifC19Canon(st)) {
 				fail("corrupted file (%v) was loaded as a different state: revision %d (saved %d), cluster %q (saved %q)", desc, got.Revision, st.Revision, got.ClusterID, st.ClusterID)
 			}
 		}
-		k.Key("corrupt", fmt.Sprint(desc), data)
+		k.Key("corrupt", fmt.Sprint(desc), data, sameStore, keepMtime)
 		k.SetNonTrivial(wellFormed)
 		k.LabelIf(viaSave, "file produced by Store.Save")
+		k.LabelIf(sameStore, "loaded through the Store that had loaded the intact file")
+		k.LabelIf(sameStore && keepMtime && len(data) == len(orig), "same-length damage, modification time kept, same Store")
 		k.LabelIf(err == nil, "accepted: decodes to the very same state")
 		k.LabelIf(err != nil && !wellFormed, "rejected: not well-formed JSON")
 		k.LabelIf(err != nil && wellFormed && errors.Is(err, state.ErrChecksumMismatch), "rejected: checksum mismatch")
